@@ -72,6 +72,15 @@ pub fn valid_ident(s: &str) -> bool {
     syn::parse_str::<syn::Ident>(s).is_ok()
 }
 
+/// layouts 5..10 spell the identifier as a raw identifier (`r#name`); serde and typeshare both have to drop the prefix first
+pub fn spelled(c: &Case) -> String {
+    if (c.layout / 5) % 2 == 1 && !["crate", "self", "super", "Self", "_"].contains(&c.ident.as_str()) {
+        format!("r#{}", c.ident)
+    } else {
+        c.ident.clone()
+    }
+}
+
 fn item_src(i: usize, c: &Case) -> String {
     let attr = match c.layout % 5 {
         0 => format!("#[serde(rename_all = {:?})]", c.rule),
@@ -81,8 +90,8 @@ fn item_src(i: usize, c: &Case) -> String {
         _ => format!("#[serde(rename_all = {:?}, deny_unknown_fields,)]", c.rule),
     };
     match c.pos {
-        Pos::Field => format!("#[typeshare]\n{}\npub struct S{} {{ pub {}: u8 }}\n", attr, i, c.ident),
-        Pos::Variant => format!("#[typeshare]\n{}\npub enum S{} {{ {} }}\n", attr, i, c.ident),
+        Pos::Field => format!("#[typeshare]\n{}\npub struct S{} {{ pub {}: u8 }}\n", attr, i, spelled(c)),
+        Pos::Variant => format!("#[typeshare]\n{}\npub enum S{} {{ {} }}\n", attr, i, spelled(c)),
     }
 }
 
@@ -260,7 +269,7 @@ impl SubCheck for C16 {
             8 => proptest::sample::select(RULES.to_vec()).prop_map(|s| s.to_string()),
             1 => proptest::sample::select(UNKNOWN_RULES.to_vec()).prop_map(|s| s.to_string()),
         ];
-        (ident, rule, prop_oneof![Just(Pos::Field), Just(Pos::Variant)], 0u8..5)
+        (ident, rule, prop_oneof![Just(Pos::Field), Just(Pos::Variant)], 0u8..10)
             .prop_filter("valid Rust identifier", |(i, _, _, _)| valid_ident(i))
             .prop_map(|(ident, rule, pos, layout)| Case { ident, rule, pos, layout })
             .boxed()
@@ -327,7 +336,15 @@ pub fn run(run: &Run) {
     for id in &idents {
         for r in &rules {
             for pos in [Pos::Field, Pos::Variant] {
-                cases.push(Case { ident: id.clone(), rule: r.to_string(), pos, layout: (fnv(&[id.as_bytes(), r.as_bytes()]) % 5) as u8 });
+                cases.push(Case { ident: id.clone(), rule: r.to_string(), pos, layout: (fnv(&[id.as_bytes(), r.as_bytes()]) % 10) as u8 });
+            }
+        }
+    }
+    // keywords are identifiers only in raw form
+    for kw in crate::gen::RAW_FIELD_NAMES {
+        for r in &rules {
+            for pos in [Pos::Field, Pos::Variant] {
+                cases.push(Case { ident: kw.to_string(), rule: r.to_string(), pos, layout: 5 + (fnv(&[kw.as_bytes(), r.as_bytes()]) % 5) as u8 });
             }
         }
     }
